@@ -4,11 +4,11 @@ import json, struct, collections
 READY = True
 
 META = {
-    "technique": "Lean 4 proof (serde data model by shape: de ∘ ser = id; handle registry; JSON string writer/reader, HTML-safe alphabet) + differential runs of a shape-driven Serialize/DeserializeSeed pair, derived types, and three independent JSON readers (Python json, serde_json, the Lean reader)",
+    "technique": "Lean 4 proof (serde data model by shape: de ∘ ser = id; handle registry; JSON writer for whole values in all formatter styles + independent JSON reader: read ∘ tojson ∘ write = id; HTML-safe alphabet) + differential runs of a shape-driven Serialize/DeserializeSeed pair, derived types, and three independent JSON readers (Python json, serde_json, the Lean reader)",
     "category": "proof",
-    "text": "Kernel-checked theorems about an executable model of value/serialize.rs (ValueSerializer), value/deserialize.rs (Deserializer for Value driven by the derived visitor of a shape) and the value-handle registry: every well-formed datum of every shape (bools, 8..64-bit integers, f32/f64 bit patterns, chars, strings, bytes, options of non-optional payloads, unit, seqs, tuples, maps, unit/newtype/tuple/field structs, enums with unit/newtype/tuple/struct variants, nested arbitrarily) deserialises from its serialisation to itself; an embedded Value comes back identical whatever the registry held before; the tojson post-processing (table extracted from filters.rs) never emits < > & ' and, composed with serde_json's string escaping (ESCAPE table extracted from the locked serde_json), is inverted by a strict JSON string reader for every string. The model is tied to /repo by running the same random shapes/data through the real Serializer/Deserializer and through the model, and the real tojson / .json auto-escape output through Python's json, serde_json and the Lean reader.",
+    "text": "Kernel-checked theorems about an executable model of value/serialize.rs (ValueSerializer), value/deserialize.rs (Deserializer for Value driven by the derived visitor of a shape, including serde's lenient primitive conversions) and the value-handle registry: every well-formed datum of every shape (bools, 8..64-bit integers, f32/f64 bit patterns, chars, strings, bytes, options of non-optional payloads, unit, seqs, tuples, maps, unit/newtype/tuple/field structs, enums with unit/newtype/tuple/struct variants, nested arbitrarily) deserialises from its serialisation to itself; de decides (ok/error) every object-free value for every shape; an embedded Value comes back identical whatever the registry held before. For JSON: the text of every value that has a JSON image (nested arrays/objects, keys by string form, none/undefined/non-finite floats null, bytes as numbers, integers of every width, finite floats by ryu's shortest text) written by serde_json's compact writer, the JinjaJsonFormatter, or the pretty writer with any indent, and post-processed by tojson (table extracted from filters.rs) or not (auto-escaping), is read back to exactly that image by an independent strict JSON reader; tojson output never contains < > & '. The model is tied to /repo by running the same random shapes/data through the real Serializer/Deserializer and through the model, and by predicting the real tojson / auto-escape output character for character (member order of the BTreeMap and IndexMap builds, float text), which is also parsed by Python's json (bit-exact floats) and serde_json.",
     "design_ref": "DESIGN.md §3 C16",
-    "level_note": "Trusted: Lean kernel; hand transcription of serialize.rs/deserialize.rs/ValueHandleRegistry into MJ/Model/Serde.lean and of serde_json's string writer + formatters into MJ/Model/Json.lean (validated by the correspondence streams, sampled); serde's own primitive/Option/seq/map visitors and derive output are represented by the harness' Seed visitors (and by 13 really derived types); float text (ryu) is not modelled (checked by Python's correctly-rounded float parser, bit-exact); map iteration order is abstracted (model: insertion order; BTreeMap build compared order-insensitively).",
+    "level_note": "Trusted: Lean kernel; hand transcription of serialize.rs/deserialize.rs/ValueHandleRegistry into MJ/Model/Serde.lean and of serde_json's writer/formatters, ryu's format64 layout and Value::cmp on map keys into MJ/Model/Json.lean (validated by the correspondence streams, sampled; every emitted text is predicted exactly); serde's own primitive/Option/seq/map visitors and derive output are represented by the harness' Seed visitors (and by 13 really derived types). Not proved: that the printed float token denotes the same double (checked bit-exactly against Python's correctly rounded reader on every float case).",
 }
 
 SITE_TOP = lambda case: case.split()[1] if len(case.split()) > 1 else "?"
@@ -218,7 +218,7 @@ def check_lines(r, lines, model):
                     r.hist["model"]["unmodelled:json"] += 1
                 elif m[0] == "refuse":
                     r.model_disagreement(case, out, "model refuses")
-                elif m[1] != "back:ok" or m[2] not in ("impl:same", "impl:perm"):
+                elif m[1] != "back:ok" or m[2] != "impl:same":
                     r.model_disagreement(case, out, "\t".join(m))
                 else:
                     r.hist["model"]["agree:json:" + m[2][5:]] += 1
@@ -237,10 +237,12 @@ def run(r):
         "serde's own visitors for primitives/Option and #[derive] output behave like the harness' Seed visitors (13 really derived types are run as well)",
         "map keys that differ as serialised model values differ as engine map keys (float-free keys of one shape)",
         "f32 signalling NaNs are quieted by the f32→f64 conversion (hardware); they are outside the round-trip domain",
-        "map keys without a JSON string form (none, sequences, non-finite floats) make tojson fail instead of emitting text",
+        "map keys without a JSON string form (none, sequences, bytes, non-finite floats) make tojson fail instead of emitting text",
+        "the shortest round-trip digits of a double are those of the model's exact-arithmetic search (validated on every float case; the token's grammar is proved, its value is checked by Python)",
+        "integers held in a 128-bit representation although they fit 64 bits are not distinguished by the model",
         "a safe string printed directly under JSON auto-escaping is written verbatim (safe = already escaped by definition)",
     ]
-    r.regen_tables(["TOJSON_REPLACEMENTS", "JINJA_JSON_SEPARATORS", "VALUE_HANDLE_MARKER", "SERDE_JSON_ESCAPE"])
+    r.regen_tables(["TOJSON_REPLACEMENTS", "TOJSON_TRUE_INDENT", "JINJA_JSON_SEPARATORS", "VALUE_HANDLE_MARKER", "SERDE_JSON_ESCAPE"])
     r.lean_prove("MJ.Props.C16", "MJ/Audit/C16.lean", extra_targets=["drive_c16"])
     exe = r.cargo_build("c16")
     if exe is None:
@@ -264,7 +266,7 @@ def run(r):
                 r.broken.append(f"harness c16 (preserve_order) exited {rc}: {err[-300:]}")
             else:
                 lines2 = out2.splitlines()
-                model2 = r.driver("drive_c16", out2)
+                model2 = r.driver("drive_c16", out2, args=("index",))
                 if model2 is None or len(model2) != len(lines2):
                     r.broken.append("model driver output does not line up (preserve_order)")
                     model2 = None
